@@ -136,3 +136,141 @@ theorem foldl_modify_filter_eq_map {α} (f : α → α) (p : Nat → Bool) (l : 
   simpa using key 0 (Nat.zero_le _)
 
 end OVM
+
+namespace OVM
+
+/-- ascending (weakly) -/
+def SortedLE : List Nat → Prop
+  | a :: b :: t => a ≤ b ∧ SortedLE (b :: t)
+  | _ => True
+
+/-- strictly ascending -/
+def SortedLT : List Nat → Prop
+  | a :: b :: t => a < b ∧ SortedLT (b :: t)
+  | _ => True
+
+theorem sortedLE_insertDup (x : Nat) (l : List Nat) (h : SortedLE l) : SortedLE (insertDup x l) := by
+  induction l with
+  | nil => simp [insertDup, SortedLE]
+  | cons a t ih =>
+    unfold insertDup
+    split
+    · rename_i hxa; exact ⟨hxa, h⟩
+    · rename_i hxa
+      cases t with
+      | nil => simp [insertDup, SortedLE]; omega
+      | cons b t' =>
+        have hab := h.1
+        have ht := h.2
+        have := ih ht
+        unfold insertDup at this ⊢
+        split
+        · rename_i hxb; exact ⟨by omega, hxb, ht⟩
+        · rename_i hxb
+          simp only [hxb, if_false] at this
+          exact ⟨hab, this⟩
+
+theorem sortedLE_sortL (l : List Nat) : SortedLE (sortL l) := by
+  unfold sortL
+  induction l with
+  | nil => simp [SortedLE]
+  | cons a t ih => simp only [List.foldr_cons]; exact sortedLE_insertDup a _ ih
+
+theorem mem_insertDup (x y : Nat) (l : List Nat) : y ∈ insertDup x l ↔ y = x ∨ y ∈ l := by
+  induction l with
+  | nil => simp [insertDup]
+  | cons a t ih =>
+    unfold insertDup; split
+    · simp
+    · simp [ih]; constructor <;> (intro h; rcases h with h | h | h <;> simp_all)
+
+theorem mem_sortL (y : Nat) (l : List Nat) : y ∈ sortL l ↔ y ∈ l := by
+  unfold sortL
+  induction l with
+  | nil => simp
+  | cons a t ih => simp only [List.foldr_cons, mem_insertDup, ih, List.mem_cons]
+
+theorem sortedLT_uniqAdj (l : List Nat) (h : SortedLE l) : SortedLT (uniqAdj l) := by
+  induction l with
+  | nil => simp [uniqAdj, SortedLT]
+  | cons a t ih =>
+    cases t with
+    | nil => simp [uniqAdj, SortedLT]
+    | cons b t' =>
+      have hab := h.1
+      have ht := h.2
+      have iht := ih ht
+      unfold uniqAdj
+      split
+      · exact iht
+      · rename_i hne
+        have hlt : a < b := by
+          have : a ≠ b := by simpa using hne
+          omega
+        -- head of uniqAdj (b :: t') is b
+        cases t' with
+        | nil => simp [uniqAdj, SortedLT]; exact hlt
+        | cons c t'' =>
+          unfold uniqAdj at iht ⊢
+          split
+          · rename_i hbc
+            have hbc' : b = c := by simpa using hbc
+            simp only [hbc, if_true] at iht
+            subst hbc'
+            -- uniqAdj (b :: t'') starts with b
+            have hhead : ∀ (l : List Nat), ∃ r, uniqAdj (b :: l) = b :: r := by
+              intro l
+              induction l with
+              | nil => exact ⟨[], by simp [uniqAdj]⟩
+              | cons d l' ihl =>
+                unfold uniqAdj; split
+                · rename_i hbd
+                  have : b = d := by simpa using hbd
+                  subst this; exact ihl
+                · exact ⟨_, rfl⟩
+            obtain ⟨r, hr⟩ := hhead t''
+            rw [hr] at iht ⊢
+            exact ⟨hlt, iht⟩
+          · rename_i hbc
+            simp only [hbc, if_false] at iht
+            exact ⟨hlt, iht⟩
+
+theorem mem_uniqAdj (y : Nat) (l : List Nat) : y ∈ uniqAdj l ↔ y ∈ l := by
+  induction l with
+  | nil => simp [uniqAdj]
+  | cons a t ih =>
+    cases t with
+    | nil => simp [uniqAdj]
+    | cons b t' =>
+      unfold uniqAdj; split
+      · rename_i hab
+        have : a = b := by simpa using hab
+        subst this; rw [ih]; simp
+      · simp only [List.mem_cons] at ih ⊢; rw [ih]
+
+theorem sortedLT_nodup (l : List Nat) (h : SortedLT l) : l.Nodup := by
+  have lower : ∀ (l : List Nat) (a : Nat), SortedLT (a :: l) → ∀ x ∈ l, a < x := by
+    intro l
+    induction l with
+    | nil => intro a _ x hx; cases hx
+    | cons b t ih =>
+      intro a h x hx
+      rcases List.mem_cons.mp hx with rfl | hx
+      · exact h.1
+      · exact Nat.lt_trans h.1 (ih b h.2 x hx)
+  induction l with
+  | nil => exact List.nodup_nil
+  | cons a t ih =>
+    refine List.nodup_cons.mpr ⟨?_, ih ?_⟩
+    · intro hm; exact Nat.lt_irrefl _ (lower t a h a hm)
+    · cases t with
+      | nil => trivial
+      | cons b t' => exact h.2
+
+/-- `std::sort` + `std::unique`: strictly ascending, duplicate-free, same members -/
+theorem sortUniq_sorted (l : List Nat) : SortedLT (sortUniq l) := sortedLT_uniqAdj _ (sortedLE_sortL l)
+theorem sortUniq_nodup (l : List Nat) : (sortUniq l).Nodup := sortedLT_nodup _ (sortUniq_sorted l)
+theorem mem_sortUniq (y : Nat) (l : List Nat) : y ∈ sortUniq l ↔ y ∈ l := by
+  unfold sortUniq; rw [mem_uniqAdj, mem_sortL]
+
+end OVM
